@@ -17,6 +17,11 @@ class SimSourceError(Exception):
     """Injected failure of a row source."""
 
 
+class SimCloseFault(SimSourceError):
+    """A source that objects to being shut down before it was drained (a
+    generator whose clean-up raises)."""
+
+
 class SimSourceTypeError(SimSourceError, TypeError):
     pass
 
